@@ -1,7 +1,6 @@
 package main
 
 import (
-	"verifharness/c01/bx"
 	"bytes"
 	"encoding/binary"
 	"fmt"
@@ -10,6 +9,7 @@ import (
 	"path/filepath"
 	"sort"
 	"strings"
+	"verifharness/c01/bx"
 
 	"github.com/Eyevinn/mp4ff/bits"
 	"github.com/Eyevinn/mp4ff/mp4"
@@ -344,7 +344,7 @@ func boxPipeline(data []byte) string {
 		w := cls(p, over, err)
 		dec()
 		p, over, dt, da = measured(n, func() {
-			sw := bits.NewFixedSliceWriter(2*n + 4096)
+			sw := bx.DirtyWriter(2*n + 4096)
 			err = b.EncodeSW(sw)
 		})
 		note(n, dt, da)
